@@ -24,6 +24,7 @@ type ExploreStats struct {
 // Explore runs every feasible path of entry with nWorkers solver processes.
 // maxPaths bounds the exploration (0 = unbounded); exceeding it sets Truncated.
 func Explore(w *World, cfg *Config, entry *ssa.Function, nWorkers, maxPaths, timeoutMs int, solverKind string, logf func(*PathResult)) (*ExploreStats, error) {
+	budget := cfg.JobBudget
 	st := &ExploreStats{ByStatus: map[string]int{}}
 	t0 := time.Now()
 	var mu sync.Mutex
@@ -69,7 +70,7 @@ func Explore(w *World, cfg *Config, entry *ssa.Function, nWorkers, maxPaths, tim
 					cond.Broadcast()
 					return
 				}
-				if maxPaths > 0 && started >= maxPaths {
+				if (maxPaths > 0 && started >= maxPaths) || (budget > 0 && time.Since(t0) > budget) {
 					st.Truncated = true
 					stack = nil
 					mu.Unlock()
@@ -102,7 +103,7 @@ func Explore(w *World, cfg *Config, entry *ssa.Function, nWorkers, maxPaths, tim
 
 				mu.Lock()
 				active--
-				if !(maxPaths > 0 && started >= maxPaths && st.Truncated) {
+				if !st.Truncated {
 					stack = append(stack, res.Children...)
 				}
 				st.Paths++
